@@ -15,6 +15,11 @@ type half struct {
 	cv     *sync.Cond
 	buf    bytes.Buffer
 	closed bool
+	// a reader that has stopped reading: the bytes stay where they are and
+	// the buffer takes at most limit bytes; a Write that does not fit blocks
+	// (like a socket whose send buffer is full) until the connection is closed
+	deaf  bool
+	limit int
 }
 
 func newHalf() *half { h := &half{}; h.cv = sync.NewCond(&h.mu); return h }
@@ -32,7 +37,7 @@ func BufPipe(a, b net.Addr) (net.Conn, net.Conn) {
 func (c *bufConn) Read(p []byte) (int, error) {
 	c.r.mu.Lock()
 	defer c.r.mu.Unlock()
-	for c.r.buf.Len() == 0 {
+	for c.r.buf.Len() == 0 || c.r.deaf {
 		if c.r.closed {
 			return 0, io.EOF
 		}
@@ -40,15 +45,44 @@ func (c *bufConn) Read(p []byte) (int, error) {
 	}
 	return c.r.buf.Read(p)
 }
+
+// StopReading makes this end of the connection stop reading for good (a Read
+// in progress or issued later blocks until the connection is closed) while
+// the connection stays open; the peer can still write slack more bytes, then
+// its Write blocks.
+func (c *bufConn) StopReading(slack int) {
+	c.r.mu.Lock()
+	c.r.deaf = true
+	c.r.limit = c.r.buf.Len() + slack
+	c.r.mu.Unlock()
+}
 func (c *bufConn) Write(p []byte) (int, error) {
 	c.w.mu.Lock()
 	defer c.w.mu.Unlock()
-	if c.w.closed {
-		return 0, io.ErrClosedPipe
+	written := 0
+	for {
+		if c.w.closed {
+			return written, io.ErrClosedPipe
+		}
+		if !c.w.deaf {
+			n, _ := c.w.buf.Write(p[written:])
+			c.w.cv.Broadcast()
+			return written + n, nil
+		}
+		// the reader has stopped reading: take what still fits, then block
+		if free := c.w.limit - c.w.buf.Len(); free > 0 {
+			k := len(p) - written
+			if k > free {
+				k = free
+			}
+			c.w.buf.Write(p[written : written+k])
+			written += k
+			if written == len(p) {
+				return written, nil
+			}
+		}
+		c.w.cv.Wait()
 	}
-	n, _ := c.w.buf.Write(p)
-	c.w.cv.Broadcast()
-	return n, nil
 }
 func (c *bufConn) Close() error {
 	for _, h := range []*half{c.r, c.w} {
